@@ -8,7 +8,7 @@ from vlib.common import Inconclusive, Scratch
 from checks.c17 import judge
 
 LOC = ["union_is_least_upper_bound", "contains_is_a_partial_order"]
-SCAN = ["scan_skip_whitespace", "scan_string_literal", "scan_string_literal_short", "scan_string_literal_multibyte", "scan_string_literal_two_byte_fixed", "scan_line_comment", "scan_block_comment", "scan_block_comment_fixed_shapes", "scan_escape_validation_total"]
+SCAN = ["scan_skip_whitespace", "scan_skip_whitespace_fixed_shapes", "scan_string_literal", "scan_string_literal_short", "scan_string_literal_multibyte", "scan_string_literal_two_byte_fixed", "scan_line_comment", "scan_block_comment", "scan_block_comment_fixed_shapes", "scan_escape_validation_total"]
 
 
 def prepare(sc):
